@@ -70,6 +70,11 @@ func c10CycCase(c *core.Ctx, k int) *core.Result {
 		{`(_method (c10node name:"v" tiny:300) Show:)`, "ERR"},
 		{`(_method (c10node name:"v" tiny:-129) Show:)`, "ERR"},
 		{`(_method (c10node name:"v" mid:4294967297) Show:)`, "ERR"},
+		{`(_method (c10node name:"x") Echo: (c10inner n: 7))`, "ERR"},
+		{`(_method (c10node name:"x") Echo: (c10inner name:"q"))`, "ERR"},
+		{`(_method (c10outer) EchoIn: (c10node name:"q"))`, "ERR"},
+		{`(_method (c10outer) EchoIn: (c10node name:"z" tiny:3))`, "ERR"},
+		{`(_method (c10node name:"x") Echo: (c10node name:"ok" tiny:3))`, "ok"},
 		{`(_method (c10node name:"v" big:5ULL) Show:)`, "v/0/0/5"},
 		{`(_method (c10node name:"v" big:18446744073709551615ULL) Show:)`, "v/0/0/18446744073709551615"},
 	} {
@@ -83,7 +88,7 @@ func c10CycCase(c *core.Ctx, k int) *core.Result {
 		}
 		if q.wantShow == "ERR" {
 			if qo.Err == nil {
-				res.Violate("value-out-of-range-stored-silently", fmt.Sprintf("%s must be reported as an error (the value does not fit the Go field), got %s", q.text, got), q.text)
+				res.Violate("wrong-kind-or-range-accepted-silently", fmt.Sprintf("%s must be reported as an error (the value does not fit the Go field or parameter), got %s", q.text, got), q.text)
 				return res
 			}
 			continue
